@@ -18,6 +18,15 @@ __getstate__/__setstate__ and save_hdf5/from_hdf5 tables)
   simulations read it, mps2lat_idx / lat2mps_idx, mps_sites, position, pairs, and what the properties reciprocal_basis and
   BZ return: shape and exact values) and test_sanity() of every loaded object,
   for HDF5 in every LegCharge format, pickle and copy.deepcopy.
+  Every generator is run once more WRAPPED (the same object referenced from 7 places - dict, general dict, list, tuple, two attributes
+  of an instance - inside containers on reference cycles: all references must come back as ONE object of the same type).
++ coverage streams (harness/c17_cover.py): `leaves` - every type Hdf5Saver dispatches on (reflection) x boundary values x {alone, shared,
+  on cycles} with a strict oracle (type identity, dtype / byte order, bit patterns, masks and fill values, hard links, documented type tags);
+  `api` - documented options of save / load / save_to_hdf5 / load_from_hdf5 / Hdf5Saver / Hdf5Loader (file endings, mode, path, partial
+  loading, exclude, ignore_unknown, format_selection, error cases); `reduce` - every position of the pickle-protocol reduce tuple;
+  `coverage` - line coverage (sys.monitoring in every runner process) of all functions of hdf5_io.py and all save_hdf5 / from_hdf5 /
+  __getstate__ / __setstate__ / __reduce__ of the package: an anchored function / public name / line that is neither reached nor
+  classified with a reason is a correspondence failure.
   Segments are generated for every lattice class (lattice_segment:<class> x {finite 0..N-1, infinite enlarge=k,
   defaults, first>0, first=0 and last<N-1}), for models (model_segment), MPS and MPO (first = 0 included).
 """
@@ -32,6 +41,8 @@ import c17_cover
 sys.path.insert(0, os.path.join(common.VERIF, 'translator'))
 
 METHODS = ['hdf5:blocks', 'hdf5:compact', 'hdf5:flat', 'pickle', 'deepcopy']
+# generators whose root object has its own __getstate__ / __setstate__ (also used by the shallow copy.copy)
+STATE_CLASSES = ('chinfo', 'dipolar_chinfo', 'legcharge', 'legpipe', 'array')
 
 # classes that cannot be instantiated themselves (abstract hooks); covered through every concrete subclass
 ABSTRACT = {
@@ -353,7 +364,7 @@ def pipe_reinit_stream(ctx, rng, intens, replay, tm):
         return
     nchunk = min(common.NPROC, 8)
     chunks = [cases[i::nchunk] for i in range(nchunk)]
-    res = common.run_impl_parallel('c17_impl.py', [{'kind': 'pipe_reinit', 'cases': ch} for ch in chunks if ch], optimize0=True, timeout=600)
+    res = common.run_impl_parallel('c17_impl.py', [c17_cover.P({'kind': 'pipe_reinit', 'cases': ch}) for ch in chunks if ch], optimize0=True, timeout=600)
     lits, meta = [], []
     hist = {'cases': 0, 'single_block_fast_path': 0, 'qnumber0': 0, 'flags_differ_from_arguments': 0, 'with_perm': 0,
             'saved(sorted,bunched)': {}}
@@ -416,6 +427,7 @@ def main(ctx):
         import json
         replay = json.load(open(ctx.replay_in)).get('input') or {}
         intens = 1
+    c17_cover.start(ctx, replay)
     try:
         static_tables(ctx)
     except Exception as e:
@@ -439,7 +451,7 @@ def main(ctx):
 
     # ---- coverage streams: leaf types by reflection, documented options, pickle-protocol fallback, line coverage table
     try:
-        c17_cover.run(ctx, rng, replay, tm, gens, FIXED_TUPLE_CYCLES)
+        c17_cover.run(ctx, rng, replay, tm)
     except Exception as e:
         import traceback
         ctx.fail('correspondence', 'coverage streams crashed: %r %s' % (e, traceback.format_exc()[-600:]), None)
@@ -454,33 +466,33 @@ def main(ctx):
                 # quick tier: the second variant of every model class skips hdf5:compact and deepcopy (the first has all five)
                 light = (not ctx.thorough()) and intens == 1 and name.startswith('model:') and v % 2 == 1
                 specs.append({'gen': name, 'args': {'variant': v} if gens[name] > 1 else {}, 'seed': ctx.seed * 1000 + rep * 97 + v,
-                              'methods': ['hdf5:blocks', 'hdf5:flat', 'pickle'] if light else METHODS,
+                              'methods': ['hdf5:blocks', 'hdf5:flat', 'pickle'] if light else METHODS + (['copy'] if name.startswith(STATE_CLASSES) else []),
                               # canonical heaps for the Coq comparison: first repetition; of the five segment modes of every
                               # lattice class the quick tier sends two (the oracle sees all five)
                               'shape': rep == 0 and (ctx.thorough() or not (name.startswith('lattice_segment:') and v >= 2)),
                               'max_nodes': ctx.pick(400, 600),
                               'shape_methods': ctx.pick(['hdf5:blocks', 'pickle'], ['hdf5:blocks', 'hdf5:compact', 'pickle', 'deepcopy'])})
-    # every generator once more WRAPPED: the object referenced from 7 places (dict / general dict / list / tuple / instance attributes)
+    # every generator also WRAPPED: the same object referenced from 7 places (dict / general dict / list / tuple / instance attributes)
     # inside containers that lie on reference cycles (quick tier: one variant per generator, thorough: every variant)
-    for name in sorted(gens):
-        vs = list(range(gens[name])) if ctx.thorough() and not name.startswith('model:') else [rng.randrange(gens[name])]
-        if not ctx.thorough() and intens == 1 and name.startswith('model:') and rng.random() < 0.5:
-            continue
-        for v in vs:
-            fmt = ['hdf5:blocks', 'hdf5:compact'][(v + len(name)) % 2]
-            specs.append({'gen': name, 'args': {'variant': v} if gens[name] > 1 else {}, 'seed': ctx.seed * 1000 + 500 + v, 'wrap': True,
-                          'methods': ctx.pick([fmt, 'pickle'], ['hdf5:blocks', 'hdf5:compact', 'pickle', 'deepcopy']),
-                          'shape': ctx.thorough() and not name.startswith('model:'), 'max_nodes': 600, 'shape_methods': [fmt, 'pickle']})
+    byname = {}
+    for sp in specs:
+        byname.setdefault(sp['gen'], []).append(sp)
+    for name in sorted(byname):
+        for k, sp in enumerate(byname[name] if ctx.thorough() else [rng.choice(byname[name])]):
+            fmt = ['hdf5:blocks', 'hdf5:compact'][(k + len(name)) % 2]
+            sp['wrap_methods'] = ctx.pick([fmt, 'pickle'], ['hdf5:blocks', 'hdf5:compact', 'pickle', 'deepcopy'])
     rng.shuffle(specs)
     if replay is not None:
         specs = []
         if replay.get('stream') == 'objects':
-            specs = [{'gen': replay['gen'], 'args': replay.get('args', {}), 'seed': replay.get('seed', 0), 'wrap': replay.get('wrap', False),
-                      'methods': [replay['method']], 'shape': True, 'max_nodes': 1500}]
+            wr = replay['method'].startswith('wrapped+')
+            specs = [{'gen': replay['gen'], 'args': replay.get('args', {}), 'seed': replay.get('seed', 0),
+                      'methods': [] if wr else [replay['method']], 'wrap_methods': [replay['method'].split('+')[-1]] if wr else [],
+                      'shape': True, 'max_nodes': 1500}]
     nchunk = common.NPROC
     chunks = [specs[i::nchunk] for i in range(nchunk)]
     t0 = time.time()
-    res = common.run_impl_parallel('c17_impl.py', [{'kind': 'objects', 'specs': ch} for ch in chunks if ch], timeout=1500)
+    res = common.run_impl_parallel('c17_impl.py', [c17_cover.P({'kind': 'objects', 'specs': ch}) for ch in chunks if ch], timeout=1500)
     tm['objects'] = round(time.time() - t0, 1)
     covered = set()
     coq_cases, coq_meta = [], []
@@ -490,18 +502,19 @@ def main(ctx):
             ctx.fail('correspondence', 'objects runner failed: ' + err[-800:], None)
             continue
         for spec, x in zip(chunks[ci], r):
-            case0 = {'stream': 'objects', 'gen': spec['gen'], 'args': spec['args'], 'seed': spec['seed'], 'wrap': bool(spec.get('wrap'))}
-            hist['wrapped'] = hist.get('wrapped', 0) + bool(spec.get('wrap'))
+            case0 = {'stream': 'objects', 'gen': spec['gen'], 'args': spec['args'], 'seed': spec['seed']}
+            hist['wrapped'] = hist.get('wrapped', 0) + bool(spec.get('wrap_methods'))
             if 'gen_error' in x:
                 ctx.fail('correspondence', 'generator %s failed: %s' % (spec['gen'], x['gen_error'][-500:]), case0)
                 continue
             hist['objects'] += 1
             ok_methods = 0
-            for method, o in x['methods'].items():
-                case = dict(case0, method=method)
+            for method_full, o in x['methods'].items():
+                case = dict(case0, method=method_full)
+                method = method_full.split('+')[-1]
                 hist['roundtrips'] += 1
-                ctx.count('objects', [spec['gen'], spec['args'], spec['seed'], method, bool(spec.get('wrap'))], nontrivial=o.get('compared', 0) > 1,
-                          sample={'gen': spec['gen'], 'args': spec['args'], 'method': method, 'root_class': x.get('root_class'),
+                ctx.count('objects', [spec['gen'], spec['args'], spec['seed'], method_full], nontrivial=o.get('compared', 0) > 1,
+                          sample={'gen': spec['gen'], 'args': spec['args'], 'method': method_full, 'root_class': x.get('root_class'),
                                   'values_compared': o.get('compared'), 'shared_references': o.get('shared'),
                                   'test_sanity_calls': o.get('sanity_n'), 'lattices_observed': o.get('lattices')})
                 if 'runner_error' in o:
@@ -565,7 +578,7 @@ def main(ctx):
         c['tuple_on_cycle'] = tuple_on_cycle(c)
     chunks = [gcases[i::nchunk] for i in range(nchunk)]
     t0 = time.time()
-    res = common.run_impl_parallel('c17_impl.py', [{'kind': 'graphs', 'cases': ch} for ch in chunks if ch], timeout=1200)
+    res = common.run_impl_parallel('c17_impl.py', [c17_cover.P({'kind': 'graphs', 'cases': ch}) for ch in chunks if ch], timeout=1200)
     tm['graphs'] = round(time.time() - t0, 1)
     gh = {'cases': 0, 'cyclic': 0, 'shared': 0, 'tuple_on_cycle': 0}
     for ci, (r, err) in enumerate(res):
@@ -617,7 +630,7 @@ def main(ctx):
     ctx.cov['traces_validated_against_impl'] = len(coq_cases)
 
     # ---- pickle-protocol fallback of the HDF5 saver (F13) and run-time state facts
-    (rr, err), (rs, err2) = common.run_impl_parallel('c17_impl.py', [{'kind': 'reduce'}, {'kind': 'states'}])
+    (rr, err), (rs, err2) = common.run_impl_parallel('c17_impl.py', [c17_cover.P({'kind': 'reduce'}), c17_cover.P({'kind': 'states'})])
     if err or err2:
         ctx.fail('correspondence', 'reduce/states runner failed: ' + (err or err2)[-600:], None)
     else:
@@ -642,11 +655,22 @@ def main(ctx):
             if not o['setstate_ok']:
                 ctx.fail('oracle', '%s.__setstate__(obj.__getstate__()) does not reproduce the object: %s' % (o['class'], o['problems'][:2]),
                          {'stream': 'states', 'class': o['class']})
+    try:
+        c17_cover.finish(ctx)
+    except Exception as e:
+        ctx.fail('correspondence', 'coverage table crashed: %r' % (e,), None)
     ctx.assumptions += [
         'C17 model: object graphs abstracted to heaps (leaf values by type+repr/bytes hash; arrays and tuples inside tenpy instances are '
         'values without identity; python/numpy scalars of one kind identified for instance attributes; lazily recomputed lattice caches ignored)',
         'C17 not modelled: the h5py/HDF5 library and pickle themselves, dataset dtype conversions (oracle-checked only); '
         'bytes with embedded NUL and class objects with a metaclass other than `type` are outside the generated inputs',
+        'C17 leaves: values h5py itself refuses to store (arrays of dtype object / unicode / datetime, str and bytes with embedded NUL, numpy scalars whose '
+        'pickled bytes contain NUL) are not generated: saving fails with the error of h5py, which the format documents as allowed ("provided that the save did '
+        'not fail with an error"); bool and np.bool_ share the one documented representation `bool`; the hidden data of a masked array under its mask, '
+        'hard_mask / shrink flags and the order of the keys of a dictionary with string keys (HDF5 lists members by name) are not compared; '
+        'Hdf5Ignored is by documentation neither saved nor loaded; Config options are assumed to have str keys (Config.warn_unused sorts them)',
+        'C17 coverage: lines classified as unreachable for files written by the current saver (branches for files of older tenpy / h5py versions, defensive errors) '
+        'are listed with their reason in coverage_table.items; the test_sanity of a loaded object is only required to pass where the saved object passes it',
     ]
     return ctx.finish(RULE, 'T17_* of coq/Props/C17.v (memoised DFS copy of any finite heap is an isomorphism onto the copy: sharing and cycles '
                       'survive; LegCharge encodings; regenerated state/attribute tables) + reflective coverage of every exporting class + '
@@ -654,10 +678,20 @@ def main(ctx):
                       'Model/PipeReinit.v (pipe_save / pipe_load) executed against LegPipe.save_hdf5 (raw file content) / from_hdf5 / pickle')
 
 
-RULE = ('objects: every generator of c17_gen.py (one per exporting class found by reflection, all variants: charge structures, leg styles, '
+RULE = ('leaves: every key of Hdf5Saver.dispatch_save / TYPES_FOR_HDF5_DATASETS (reflection) x value space with boundary values (ints around 2^31 / 2^63 / 2^64, '
+        '-0.0 / nan / inf / denormal floats, empty / unicode / long strings, arrays of every numeric dtype incl. non-native byte order, 0-d, zero-size, '
+        'non-contiguous, structured; masked arrays dtype x mask pattern {nomask, all False, some, all True} x fill_value {default, occurring unmasked, equal '
+        'to all data, nan}; one instance of every numpy dtype class incl. swapped byte order, strings, structured, sub-array; containers, ranges, globals) x '
+        '{alone at /x, a deep path (and / for groups); shared by 7 references; inside self-referential list / dict / general dict / tuple}: quick tier all values '
+        'alone + a stratified sample shared / cycle, thorough all.  api: 6 scenarios of documented options.  coverage: one case per anchored function, '
+        'dispatched type, type tag and public name.  '
+        'objects: every generator of c17_gen.py (one per exporting class found by reflection, all variants: charge structures, leg styles, '
         'pipes, tensors, all predefined sites, MPS finite/infinite/segment, UniformMPS from_MPS and plain constructor (unit_cell_width != L), MPO, all lattices (HelicalLattice with 1- and 2-site unit cells), segments of all lattices (first = 0: finite 0..N-1, '
         'enlarge=k, defaults; first > 0; last < N-1), segment models / MPS / MPO, all models, terms, errors, configs, container zoo) '
-        'x {hdf5 blocks/compact/flat, pickle, deepcopy}; non-trivial when more than one value was compared; distinct = (generator, variant, seed, method). '
+        'x {hdf5 blocks/compact/flat, pickle, deepcopy} + the same object wrapped (7 references, surrounding cycles) x {hdf5 blocks|compact, pickle} '
+        '(quick: one variant per generator, thorough: all; boundary instances: legs without blocks, tensors projected to nothing, MPS / MPO with unit_cell_width != L, '
+        'grouped sites, explicit_plus_hc, non-canonical forms, grouped models (mps_unit_cell_width != Ls[0]), configs on cycles / sharing a sub-config / sharing `unused`, '
+        'results of a simulation run); non-trivial when more than one value was compared; distinct = (generator, variant, seed, method). '
         'graphs: random heaps of 1-10 containers (list/tuple/set/dict simple+general keys/instances) with sharing, self references and cycles x '
         '{hdf5, pickle, deepcopy}; non-trivial when more than one node is reachable.  reflection: one case per discovered class.  '
         'pipe-reinit: random LegPipes (1-3 incoming legs of 1-3 blocks with sizes 0-2, qconj +-1, chinfo none / U(1) / Z_2 / Z_3 / two charges, '
